@@ -9,6 +9,7 @@ import ast
 from . import front_py
 
 REGISTRY = {}      # (module, qualname, variant) -> Contract
+FIELD_HINTS = {}   # 'Class.field' -> dict(ndim=, elem=, refcls=)   (shape hints for untyped array fields)
 ORDER = []
 
 
@@ -127,6 +128,10 @@ class LoopSpecBuilder(LoopSpec):
     def also_modifies(self, *paths):
         self.modifies_extra.extend(paths)
         return self
+
+
+def field_hint(path, **kw):
+    FIELD_HINTS[path] = kw
 
 
 def parse_expr(s):
